@@ -111,6 +111,9 @@ def execute_tasks_h5(
             if task_key not in memory_dict.keys():
                 if task_key + ".h5out" not in os.listdir(cache_directory):
                     file_name = os.path.join(cache_directory, task_key + ".h5in")
+                    if os.path.exists(file_name):
+                        # input file left behind by an interrupted run, dump() would append to it and fail
+                        os.remove(file_name)
                     dump(file_name=file_name, data_dict=data_dict)
                     if not disable_dependencies:
                         # a task whose result was taken from the cache directory has no process to wait for
